@@ -1,0 +1,20 @@
+//go:build verif
+
+package builtin
+
+import (
+	"context"
+
+	"github.com/conduitio/conduit/pkg/foundation/log"
+)
+
+// VerifRunSandbox exposes the unexported generic runSandbox (instantiated at
+// int -> int, with a no-op logger) to the verification harness (/verif,
+// property C09). It adds no behaviour.
+func VerifRunSandbox(
+	ctx context.Context,
+	f func(context.Context, int) (int, error),
+	req int,
+) (int, error) {
+	return runSandbox(f, ctx, req, log.Nop(), "verif")
+}
